@@ -11,6 +11,7 @@
 import Sigverif.Lemmas.C20Text
 import Sigverif.Lemmas.C20Mod
 import Sigverif.Lemmas.C20Pipe
+import Sigverif.Lemmas.C20Ann
 namespace SV
 
 /-- star parameters carry no default (`inspect.Parameter` refuses one) -/
@@ -74,6 +75,20 @@ theorem s_kwoargs (upo : Bool) (pk ko : List Param) (va vk : Option Param)
       .ok ((pk ++ va.toList ++ (reqs ko ++ dfls ko) ++ vk.toList).map Param.bare) :=
   sParams_kwo upo pk ko va vk hpk hko hva hvk hsorted hvad hvkd hn
 
+/-- **the `annotate` + `kwoargs` spelling** (`use_modifiers_annotate` and `use_modifiers_kwoargs`, with or without
+    `use_modifiers_posoargs`): the `def` is written without annotations, `modifiers.annotate(**annotations)` gives every
+    parameter its own annotation back (the translator is prepared again on the annotated function), and the result has the
+    parameters of the signature — names, kinds, defaults, annotations — the keyword-only ones required-then-defaulted.
+    (`Param.bare` forgets the upgraded annotation, which `annotate` sets to the pre-evaluated value.) -/
+theorem s_annotate_kwoargs (upo : Bool) (pk ko : List Param) (va vk : Option Param)
+    (hpk : ∀ p ∈ pk, p.kind = .pk) (hko : ∀ p ∈ ko, p.kind = .ko)
+    (hva : ∀ p ∈ va, p.kind = .vp) (hvk : ∀ p ∈ vk, p.kind = .vk)
+    (hsorted : pk = reqs pk ++ dfls pk) (hvad : ∀ v ∈ va, v.dflt = none) (hvkd : ∀ v ∈ vk, v.dflt = none)
+    (hn : ((pk ++ ko ++ va.toList ++ vk.toList).map (·.name)).Pairwise (· ≠ ·)) :
+    ∃ r, sParams true upo true (pieces (pk ++ va.toList ++ ko ++ vk.toList)) = .ok r ∧
+      r.map Param.bare = (pk ++ va.toList ++ (reqs ko ++ dfls ko) ++ vk.toList).map Param.bare :=
+  sParams_kwo_ann upo pk ko va vk hpk hko hva hvk hsorted hvad hvkd hn
+
 /-- … which is the signature itself **up to the order of keyword-only parameters**: the same parameters (a permutation),
     and exactly the same list once the keyword-only ones are left out -/
 theorem s_kwoargs_up_to_kwo_order (pk ko : List Param) (va vk : Option Param)
@@ -130,6 +145,11 @@ example : (readSig false false true (pieces (exK ++ (some (⟨11, .vp, none, non
 
 example : sParams false true true (pieces (exK ++ (some (⟨11, .vp, none, none, .empty⟩ : Param)).toList ++ exKo ++
     (some (⟨12, .vk, none, none, .empty⟩ : Param)).toList)) =
+    .ok [⟨1, .pk, none, none, .empty⟩, ⟨2, .pk, some 3, some 40, .empty⟩, ⟨11, .vp, none, none, .empty⟩,
+         ⟨4, .ko, none, some 41, .empty⟩, ⟨3, .ko, some 4, none, .empty⟩, ⟨12, .vk, none, none, .empty⟩] := by rfl
+
+example : (sParams true false true (pieces (exK ++ (some (⟨11, .vp, none, none, .empty⟩ : Param)).toList ++ exKo ++
+    (some (⟨12, .vk, none, none, .empty⟩ : Param)).toList))).map (·.map Param.bare) =
     .ok [⟨1, .pk, none, none, .empty⟩, ⟨2, .pk, some 3, some 40, .empty⟩, ⟨11, .vp, none, none, .empty⟩,
          ⟨4, .ko, none, some 41, .empty⟩, ⟨3, .ko, some 4, none, .empty⟩, ⟨12, .vk, none, none, .empty⟩] := by rfl
 
